@@ -173,7 +173,7 @@ PARSE_ASSUME = [
     "WFrecover: the canRecover flag of a state holds exactly when the state can shift the error symbol (generator contract on Item.canRecover/ItemSet.CanRecover; checked on emitted tables by the LR validator)",
     "trusted contracts: Scanner.Scan returns non-nil tokens with a type in [0,numSymbols), EOF for ever from some point on; user ReduceFuncs do not write parser memory or retain X; action.String is pure",
     "termination of the Parse loop is not proved (a reduce step consumes no input): it follows from the trusted LR theorem for validated tables",
-    "the contract is proved on the expansion of two carrier grammars (concrete table sizes), and the run-time functions are checked to be textually identical across all carriers",
+    "the contract is proved on the expansion of two carrier grammars with the table sizes replaced by symbolic constants (NumStates, NumSymbols, numProductions >= 1), and the run-time functions are checked to be textually identical across all carriers",
 ]
 PARSE_TRUSTED = COMMON_TRUSTED + ["text/template expansion (the expanded parser package is what is verified)", "LR theorem (Aho-Sethi-Ullman 4.7): a conflict-free canonical LR(1) automaton accepts exactly L(G), reduces in reverse right-most order, and its reachable stacks satisfy the viable-stack interface"]
 
@@ -209,7 +209,7 @@ MAIN_CONTRACTS = "{repo}/zz_contracts_verif.go"
 
 def gen_govc(prop):
     return [
-        {"dir": "{repo}", "pkgs": ["./internal/parser/lr1/action", "./internal/parser/lr1/items"], "contracts": [ACTION_CONTRACTS, LR1ITEMS_CONTRACTS], "prop": prop},
+        {"dir": "{repo}", "pkgs": ["./internal/parser/lr1/action", "./internal/parser/lr1/items"], "contracts": [ACTION_CONTRACTS, LR1ITEMS_CONTRACTS, "{repo}/internal/ast/zz_contracts_verif.go", "{repo}/internal/parser/first/zz_contracts_verif.go"], "prop": prop},
         {"dir": "{repo}", "pkgs": ["."], "contracts": [MAIN_CONTRACTS], "prop": prop},
     ]
 
@@ -1108,7 +1108,11 @@ _first_bounded = {
 for _p in ("C02", "C04", "C06"):
     PROPS[_p]["govc"] = PROPS[_p]["govc"] + [dict(_first_govc, prop=_p)]
     PROPS[_p]["bounded"] = PROPS[_p].get("bounded", []) + [dict(_first_bounded)]
-    PROPS[_p]["explanation"] += " Generator side, proved for all FIRST tables and symbol strings: FirstS is the union of FIRST of the symbols up to and including the first non-nullable one and contains the marker 'empty' exactly when every symbol is nullable (First, SymbolSet.AddSet, FirstSets.GetSet under contract); GetFirstSets returns sets that are closed under the three rules of its iteration (the loop stops only when no production can add anything: invariant 'a change was recorded or every production seen so far is closed', AddToken/AddSet report exactly whether they changed anything); that nothing unjustified is ever added (least fixed point) and the LR(1) closure/goto are decided by the bounded SYN sweep only."
+    PROPS[_p]["explanation"] += " Generator side, proved for all FIRST tables and symbol strings: FirstS is the union of FIRST of the symbols up to and including the first non-nullable one and contains the marker 'empty' exactly when every symbol is nullable (First, SymbolSet.AddSet, FirstSets.GetSet under contract); GetFirstSets returns sets that are closed under the three rules of its iteration (the loop stops only when no production can add anything: invariant 'a change was recorded or every production seen so far is closed', AddToken/AddSet report exactly whether they changed anything); ItemSet.Closure returns a set that contains its argument and is closed under the LR(1) closure rule (for every item [A -> x . B y, a], production B -> z and terminal b in FIRST(y a), the item [B -> . z, b] is present; AddItem, first1, Contain, NewItemSet under contract, NewItem trusted for its rendered key), Goto returns the closed set that holds every item with the dot moved over X. That nothing unjustified is ever added (least fixed points), GetItemSets and the table rendering are decided by the bounded SYN sweep only."
+
+
+# generator side of C02: the LR(1) closure and goto (contracts in lr1/items)
+PROPS["C02"]["govc"] = PROPS["C02"]["govc"] + gen_govc("C02")[:1]
 
 
 def c10_numbering(run):
